@@ -28,6 +28,8 @@
                 }
             },
             final(state).only_remove_conns_changed(old(state)),
+            // ends are only closed and channels only dropped: claimed ends keep belonging to connected clients
+            old(self).chan_owners_connected() ==> final(self).chan_owners_connected(),
             !old(self).channels@.contains_key(cookie) ==> final(self).channels@ == old(self).channels@
                 && final(self).conns@ == old(self).conns@,
             old(self).channels@.contains_key(cookie) ==> {
